@@ -333,7 +333,7 @@ func init() {
 	})
 
 	register(&Rule{
-		ID: "C15.R3", Props: []string{"C15", "C07"}, Min: 1,
+		ID: "C15.R3", Props: []string{"C15", "C07", "C10"}, Min: 1,
 		Doc: "no unvalidated memo of filesystem state: inside the cone of the render entry points, what a Stat / file read / loader call returned is never stored into engine or package-level state, except into the template cache whose every hit is validated by mtime (C15.R2) — in particular not under sync.Once, which has no invalidation",
 		Run: func(p *Prog, c *Ctx) {
 			cone := p.Cone(append(p.renderEntries(), p.concurrentEntries()...)...)
@@ -560,7 +560,7 @@ func init() {
 	// ---------- G7: one stringification, no position-specific transformation ----------
 
 	register(&Rule{
-		ID: "C13.R5", Props: []string{"C13", "C03"}, Min: 4,
+		ID: "C13.R5", Props: []string{"C13", "C03", "C02"}, Min: 4, // C02: "the value's string form" is one form, fmt.Sprint, in every position
 		Doc: "one value, one string form, one truthiness: every expression position converts an evaluated value to its output string with fmt.Sprint (never a position-specific strconv fast path, whose float/large-number format differs), and the value handed to the truthiness table or returned as a bound value is what the scope / evaluator / pipe produced — not a reflect-transformed copy made in one position only",
 		Run: func(p *Prog, c *Ctx) {
 			positions := []string{"(*vuego.Vue).interpolateToWriter", "(*vuego.Vue).evalAttributes", "(*vuego.Vue).evalBoundAttribute", "(*vuego.Vue).evalVHtml", "(*vuego.Vue).evalVText", "(*vuego.Vue).evalVShow", "(*vuego.Vue).evalConditionExpr"}
